@@ -268,7 +268,7 @@ impl Prop for C08 {
         96
     }
     fn cases(&self, t: Tier) -> usize {
-        t.pick(60_000, 2_000_000)
+        t.pick(500_000, 40_000_000)
     }
     fn rule(&self) -> String {
         "tape-decoded (4/5) input shape (flat 1..30 or c 1-3 x h,w 1-8) + up to 5 (thorough 7) raw layer requests (dense width 1..30; convolution kernel 1-4, stride 1-3, padding 0..kernel+1, dilation 1-3; deconvolution kernel 1-4, stride 1-3, padding 0-3; pool kernel 1-4, stride 1-4), submitted one by one next to an independent shape model (standard formulas): model-valid requests must be accepted and announced (parsed from the Display text) as the model says, a spatial layer after a flat non-perfect-square width must be rejected, requests that do not fit are outside the property and are not submitted; forward on a random input must produce the announced shape for every layer (flattened where a dense layer follows), backward gradient tensors must have the parameters' shapes. (1/5) identity networks (1x1 unit kernels, 1x1 pools, identity dense, identity feedback block) around a flat->spatial or spatial->flat transition must reproduce the input sequence bitwise in row-major order. Non-trivial: depth >= 2 with a flat<->spatial transition, or an odd size / non-dividing stride / padding >= kernel, or an identity network with >= 2 elements. Distinct = (input shape, accepted request sequence).".into()
